@@ -57,7 +57,7 @@ let show_ret = function
    inside the rcu closure (the repair, see known_findings/C18.json); [false] =
    the code as it was. With [false] the oracle prints `model ||| spec` wherever
    the faithful model of the old code departs from the linearizable behaviour. *)
-let code_is_fixed = false
+let code_is_fixed = true
 
 let observe nthreads (s : gstate) =
   let per_thread t =
